@@ -320,6 +320,18 @@ class Layout:
                 eff, _direction(self.cfg_paths[j], mydir)))
             if fragment and fragment[0] == j:
                 ref += "#" + fragment[1]
+            elif (i + 2 * n + len(ref)) % 3 == 0 and "$" not in ref:
+                # the reference comes from a definition: as a whole, or -
+                # when it is a relative one - behind two made-up segments
+                # and as many '..'; what is resolved is the expanded text
+                dn = "zcvr%d_%d" % (i, n)
+                if eff in ("raw", "quoted") and (i + n) % 2:
+                    lines.append("%%define %s zcv-p/zcv-q" % dn)
+                    ref = "${%s}/../../%s" % (dn, ref)
+                else:
+                    lines.append("%%define %s %s" % (dn, ref))
+                    ref = "$" + dn
+                self.edges["cfg"].add("include-by-definition|%s" % eff)
             lines.append("%%include %s" % ref)
             lines.append("k c%d%s" % (i, "bcdef"[n % 5]))
         if i == 0:
